@@ -456,6 +456,7 @@ class Rec:
 
     def __init__(self, name):
         self.data = b''
+        self.name = name
         self.digest_size = _hashlib.new(name).digest_size
         Rec.last = self
 
@@ -474,17 +475,31 @@ class _HL:
 K.hashlib = _HL         # HashAlgorithm.hasher: the left-16 digest inside _sign must not push symbolic octets into C code
 
 
-@ob('O2.3', 'the left-16 field is the first two octets of the digest of exactly the octets handed to the signing primitive',
-    'document of 0..3 symbolic octets, recording hash', cond_timeout={'q': 200, 't': 600})
-def left16(doc: bytes) -> bool:
+H4 = (HashAlgorithm.SHA256, HashAlgorithm.SHA512, HashAlgorithm.SHA1, HashAlgorithm.SHA384, HashAlgorithm.SHA224)
+
+
+@ob('O2.3', 'the left-16 field is the first two octets of the digest - computed with the signature\'s OWN hash algorithm - of exactly the octets handed to the signing primitive',
+    'document of 0..3 symbolic octets; hash by symbolic index from {SHA256 (the key\'s preference), SHA512, SHA1, SHA384, SHA224, or none given}; recording hash that also records which algorithm was asked for',
+    cond_timeout={'q': 200, 't': 600}, partitions=[['hi == %d' % k] for k in range(6)])
+def left16(doc: bytes, hi: int = 0) -> bool:
     """
     pre: len(doc) <= 3
+    pre: 0 <= hi < 6
     post: _
     """
     Oracle.reset()
-    sig = KEY.sign(doc, created=T0, hash=HashAlgorithm.SHA256)
+    want_alg = HashAlgorithm.SHA256
+    for k in range(5):
+        if hi == k:
+            want_alg = H4[k]
+    if hi == 5:
+        sig = KEY.sign(doc, created=T0)
+    else:
+        sig = KEY.sign(doc, created=T0, hash=want_alg)
     fed = Rec.last.data
     h2 = bytes(sig._signature.hash2)
+    if sig.hash_algorithm != want_alg or Rec.last.name.lower().replace('-', '') != want_alg.name.lower():
+        return False
     return fed == signed_octets() and h2 == bytes([fed[-7], fed[0]]) and len(h2) == 2
 
 
